@@ -3,9 +3,15 @@
 Space I, deviation-bounded mutation: seeds G (one small generated document per format, verif.props.c01_seeds - among them three
 PDFs encrypted for the empty password: RC4-128, AES-128, AES-256), F (the fixtures) and T (verif.props.c01_text: 18 carriers x 7
 character classes - documents whose extracted text holds a Latin-1 / cp1252-only / BMP / astral character or a lone surrogate);
+and D (verif.props.c01_feat: well-formed documents that each hold one construct of the format's grammar the G seeds lack -
+spreadsheets xlsx / xls / ods with one cell of each value type {string, integer, float, boolean, date, date-time, time of day,
+duration, each error value, formula with a cached number / error / string / time / date / boolean} x 2-7 values; RTF with one
+destination group (11 destinations) x groups nested 0..3 deep (thorough: 4, 8) x text runs of 0 / 48 characters (thorough: 1, 8,
+400) x closed / left open - unmutated, through the extractor and read_file, ZIP member, e-mail attachment and every CLI mode
+(quick, RTF: extractor, read_file, cli-json));
 every case applies ONE deviation to one seed and feeds the bytes to one extractor through one seam.
 
-    case = {"src": "G:<name>" | "F:<relative fixture path>" | "T:<carrier>/<class>", "to": extractor key, "seam": seam,
+    case = {"src": "G:<name>" | "F:<relative fixture path>" | "T:<carrier>/<class>" | "D:<construct>", "to": extractor key, "seam": seam,
             "op": [kind, args...], optional "stdout": encoding of the CLI's stdout (default utf-8)}
 
 Operators (kind):
@@ -68,6 +74,7 @@ import tempfile
 import time
 
 from verif.mc import pool as P
+from verif.props import c01_feat as D
 from verif.props import c01_pdfenc as E
 from verif.props import c01_seeds as S
 from verif.props import c01_text as T
@@ -117,6 +124,8 @@ def src_bytes(src: str) -> bytes:
         return S.seed(name)["data"]
     if kind == "T":
         return T.document(*name.split("/"))
+    if kind == "D":
+        return D.document(name)
     return S.fixture_bytes(name)
 
 
@@ -124,6 +133,8 @@ def src_own(src: str) -> str:
     kind, name = src.split(":", 1)
     if kind == "T":
         return T.CARRIERS[name.split("/")[0]][1]
+    if kind == "D":
+        return D.to(name)
     return S.seed(name)["to"] if kind == "G" else S.fixture_to(name)
 
 
@@ -133,6 +144,8 @@ def src_ext(src: str) -> str:
         return S.path_ext(name)
     if kind == "T":
         return T.CARRIERS[name.split("/")[0]][0]
+    if kind == "D":
+        return D.ext(name)
     low = name.lower()
     return "tar.gz" if low.endswith(".tar.gz") else low.rsplit(".", 1)[1]
 
@@ -480,7 +493,7 @@ def groups(tier: str) -> list:
         out.append(f"aware:G:{name}")
     for rel in S.fixtures():
         out.append(f"fix:{rel}")
-    out += ["cross", "splice", "seams:G", "seams:F", "text", "climodes"]
+    out += ["cross", "splice", "seams:G", "seams:F", "text", "climodes", "construct"]
     out += [f"variant:{name}" for name, s in S.build_variants().items()
             if s["variant"] in (S.VARIANTS_QUICK if tier == "quick" else S.VARIANTS_THOROUGH)]
     out += ["route:att", "route:mem", "route:path"]
@@ -664,6 +677,18 @@ def group_cases(tier: str, group: str) -> list:
                 out += [{"src": src, "to": to, "seam": mode, "via": VIA[mode], "stdout": enc, "op": ["id"]} for enc in encs]
             if not quick:
                 out += [{"src": src, "to": x, "seam": "direct", "op": ["id"]} for x in EXTRACTOR_KEYS if x != to]
+    elif group == "construct":
+        # family D: one construct of the format's grammar per document (a cell of each value type; an RTF destination group x
+        # nesting depth x length of the text run x closed / open), unmutated, through the extractor and the seams
+        for nm in D.names(tier):
+            src = f"D:{nm}"
+            to = D.to(nm)
+            if nm.startswith("cell/") or not quick:
+                seams = SEAMS[1:4] + CLI_MODES
+            else:
+                seams = ["read_file", "cli-json"]
+            out.append({"src": src, "to": to, "seam": "direct", "op": ["id"]})
+            out += [{"src": src, "to": to, "seam": seam, "via": VIA[seam], "op": ["id"]} for seam in seams]
     elif group == "climodes":
         # the option combinations of the CLI that the seam sub-grids do not use, on every unmutated seed
         srcs = [f"G:{n}" for n in g] + ([] if quick else [f"F:{r}" for r in S.fixtures()])
@@ -1078,7 +1103,7 @@ def evaluate(case, early: bool = False):
         ext, wrapped = build_input(case, data)
     except NotImplementedError:
         return "inexpressible", [], 0.0
-    b = _Budget(SOFT_BUDGET, case["to"], early and case["src"].startswith("G:"))    # fixtures may legitimately need seconds: no attribution
+    b = _Budget(SOFT_BUDGET, case["to"], early and case["src"].startswith(("G:", "D:")))    # fixtures may legitimately need seconds: no attribution
     oc, fails = None, []
     try:
         with b:
@@ -1428,7 +1453,9 @@ def run(ctx):
                    "evenly spaced offsets), every seed unmutated and every G seed's head splices to each of the 21 extractors, and a stated "
                    "sub-grid through read_file, ZIP member, e-mail attachment and the three CLI modes; T = %d documents (%d carriers x %d "
                    "character classes, expressible ones) through the extractor, read_file, ZIP member, e-mail attachment and every CLI "
-                   "mode x stdout encoding %s%s; the remaining CLI option combinations (--binary) on every unmutated G seed%s; "
+                   "mode x stdout encoding %s%s; D = %d construct documents (%d spreadsheet cells: %s x value types %s; %d RTF destination "
+                   "groups: %s x nesting depth %s x text run %s x %s) unmutated through %s; "
+                   "the remaining CLI option combinations (--binary) on every unmutated G seed%s; "
                    "renderings: every G seed with a CFB / ZIP container re-rendered %s (unmutated through every seam; every container-%s "
                    "operator through the extractor); routing: payload x name style %s x carrier (e-mail attachment of .eml / .mbox under "
                    "each of the %d registered / known media types spelled as registered and upper-case%s + 3 unregistered; ZIP / tar%s member; "
@@ -1439,6 +1466,11 @@ def run(ctx):
                       "one" if q else "one and every two (in different fields)", len(E.deviations("aes")),
                       len(S.fixtures()), 16 if q else 64, len(T.names()), len(T.CARRIERS), len(T.CHARS),
                       STDOUTS_QUICK if q else STDOUTS_THOROUGH, "" if q else ", and to each of the other 20 extractors",
+                      len(D.names(ctx.tier)), len([n for n in D.names(ctx.tier) if n.startswith("cell/")]), list(D.CELL_FORMATS),
+                      {k: len(v) for k, v in D.CELLS.items()}, len([n for n in D.names(ctx.tier) if n.startswith("rtfgrp/")]),
+                      D.RTF_DESTS, D.RTF_DEPTHS_QUICK if q else D.RTF_DEPTHS_THOROUGH, D.RTF_RUNS_QUICK if q else D.RTF_RUNS_THOROUGH,
+                      D.RTF_ENDS, "the extractor, read_file, ZIP member, e-mail attachment and every CLI mode" +
+                      (" (RTF groups: extractor, read_file, cli-json)" if q else ""),
                       "" if q else " and fixture",
                       S.VARIANTS_QUICK if q else S.VARIANTS_THOROUGH, "level" if q else "aware", NAME_STYLES, len(mime_table()),
                       "" if q else " and lower-case", "" if q else " / tar.gz"),
@@ -1446,6 +1478,10 @@ def run(ctx):
            "bounds": {"tier": ctx.tier, "soft_budget_s": SOFT_BUDGET, "hard_timeout_s": HARD_TIMEOUT, "blocked_after_wall_s": _Budget.BLOCK_WALL,
                       "stdout_encodings": STDOUTS_QUICK if q else STDOUTS_THOROUGH, "cli_modes": CLI_MODES,
                       "text_character_classes": list(T.CHARS), "text_carriers": list(T.CARRIERS),
+                      "construct_cell_formats": list(D.CELL_FORMATS), "construct_cell_values": D.CELLS,
+                      "construct_rtf_destinations": D.RTF_DESTS,
+                      "construct_rtf_depths": D.RTF_DEPTHS_QUICK if q else D.RTF_DEPTHS_THOROUGH,
+                      "construct_rtf_text_runs": D.RTF_RUNS_QUICK if q else D.RTF_RUNS_THOROUGH, "construct_rtf_ends": D.RTF_ENDS,
                       "pdfenc_seeds": list(E.SEEDS), "pdfenc_fields": {k: len(v) for k, v in E.FIELDS.items()},
                       "pdfenc_deviations_per_case": 1 if q else 2,
                       "seed_renderings": S.VARIANTS_QUICK if q else S.VARIANTS_THOROUGH,
